@@ -1,5 +1,151 @@
 import Rivaas.Proto
-/- Driver for C05 (stub: not built yet) -/
-def main : IO UInt32 := do
-  IO.eprintln "driver for C05 is not built yet"
-  return 2
+import Rivaas.Spec.Presence
+/-
+Driver for C05. Case line (strings hex-encoded, lists as `n item…`):
+
+  <id> J <json> R <n> { <path> <resolves> <n> <tag>… <num> <cresolves> <cpanics> <n> <ctag>… }*
+       O <mode 0=partial 1=full> <maxErrors> <maxFields> <n> <redacted path>… <singleRule>
+       F <n> { <path> <tag> }*
+    => PM <n> <path>… LV <n> <path>… V ( N | P | E <truncated> <n> { <path> <code> <hidden> }* )
+       K <leak> D <deterministic>
+
+  <json> ::= L | O <n> { <key> <json> }* | A <n> <json>*
+-/
+namespace Rivaas.DriverC05
+open Rivaas.Proto Rivaas.Presence
+
+partial def pJson : P Json := do
+  let k ← tok
+  if k == "L" then pure .leaf
+  else if k == "O" then do
+    let n ← nat
+    let kvs ← manyN n (do let key ← str; let v ← pJson; pure (key, v))
+    pure (.obj kvs)
+  else if k == "A" then do
+    let n ← nat
+    let items ← manyN n pJson
+    pure (.arr items)
+  else failure
+
+def pRule : P Rule := do
+  let p ← str
+  let r ← bool
+  let ts ← list str
+  let num ← bool
+  let cr ← bool
+  let cp ← bool
+  let cts ← list str
+  pure { path := p, resolves := r, tags := ts, num := num, cresolves := cr, ctags := if cp then none else some cts }
+
+structure Case where
+  top : List (Bytes × Json)
+  rules : List Rule
+  full : Bool
+  opts : Opts
+  single : Bool
+  fullErrs : List (Path × Bytes)
+
+def pCase : P Case := do
+  lit "J"
+  let j ← pJson
+  let top ← match j with
+    | .obj kvs => pure kvs
+    | _ => failure
+  lit "R"
+  let rules ← list pRule
+  lit "O"
+  let mode ← nat
+  let me ← nat
+  let mf ← nat
+  let red ← list str
+  let single ← bool
+  lit "F"
+  let fe ← list (do let p ← str; let t ← str; pure (p, t))
+  pure { top := top, rules := rules, full := mode == 1,
+         opts := { maxErrors := me, maxFields := mf, redacted := red }, single := single, fullErrs := fe }
+
+/-- what `Validate`/`ValidatePartial` did: panic, nil, or a `*validation.Error` -/
+inductive VObs where
+  | panic
+  | res (r : Option Result)
+  deriving DecidableEq
+
+structure Obs where
+  pm : List Path
+  leaves : List Path
+  v : VObs
+  leak : Bool
+  det : Bool
+
+def pFieldErr : P FieldErr := do
+  let p ← str
+  let c ← str
+  let h ← bool
+  pure { path := p, code := c, hidden := h }
+
+def pObs : P Obs := do
+  lit "PM"
+  let pm ← list str
+  lit "LV"
+  let lv ← list str
+  lit "V"
+  let k ← tok
+  let v ← if k == "N" then pure (VObs.res none)
+    else if k == "P" then pure VObs.panic
+    else if k == "E" then do
+      let t ← bool
+      let fs ← list pFieldErr
+      pure (VObs.res (some { fields := fs, truncated := t }))
+    else failure
+  lit "K"
+  let leak ← bool
+  lit "D"
+  let det ← bool
+  pure { pm := pm, leaves := lv, v := v, leak := leak, det := det }
+
+def encPaths (ps : List Path) : String :=
+  s!"{ps.length}" ++ String.join (ps.map fun p => " " ++ encStr p)
+
+def encV : VObs → String
+  | .panic => "P"
+  | .res none => "N"
+  | .res (some r) =>
+    s!"E {if r.truncated then 1 else 0} {r.fields.length}" ++
+      String.join (r.fields.map fun e => s!" {encStr e.path} {encStr e.code} {if e.hidden then 1 else 0}")
+
+/-- the model of the code as it is in the repository now -/
+def modelPresence (c : Case) : List Path := presence c.top
+def modelLeaves (pm : List Path) : List Path := leafPaths pm
+def modelValidate (c : Case) (pm : List Path) : VObs :=
+  if c.full then .res (validateFull c.fullErrs c.opts)
+  else .res (validatePartial pm c.rules c.opts)
+
+/-- errors that ought to be reported, evaluated on the presence set the implementation reported -/
+def want (c : Case) (o : Obs) : List (Path × Bytes) :=
+  if c.full then c.fullErrs.map fun (p, t) => (p, tagPrefix ++ t)
+  else expectedErrs o.pm c.rules c.opts
+
+def specOK (c : Case) (o : Obs) : Bool :=
+  presenceOK c.top o.pm && leavesOK o.pm o.leaves &&
+  (match o.v with
+   | .panic => false
+   | .res r => errorsOK (want c o) c.opts c.single r) &&
+  !o.leak && o.det
+
+def step (line : String) : String :=
+  match splitCase line with
+  | none => "? bad-line"
+  | some (id, inp, obs) =>
+    match runP pCase inp, runP pObs obs with
+    | some c, some o =>
+      let mpm := modelPresence c
+      let mlv := modelLeaves mpm
+      let mv := modelValidate c mpm
+      let mi := o.pm == mpm && o.leaves == mlv && decide (o.v = mv) && !o.leak && o.det
+      let s := specOK c o
+      verdict id mi s "-" s!"PM {encPaths mpm} LV {encPaths mlv} V {encV mv} K 0 D 1"
+    | _, _ => s!"{id} bad-case"
+
+end Rivaas.DriverC05
+
+def main : IO UInt32 := Rivaas.Proto.driverMain Rivaas.DriverC05.step
